@@ -75,9 +75,6 @@ NOT_APPLICABLE = {
     "C19": "access control is an attribute on ~200 Anchor entrypoints whose bodies need Context<..> with PDA-validated AccountInfos, "
            "token CPIs and sysvars; a hand-built AccountInfo + real AccountLoader + RevertibleMarket::new did not finish symbolic execution in 600 s for a single pool read (probed), "
            "so a property quantified over all instructions is out of reach of solver-based checking here.",
-    "C22": "function-level harnesses written (harness/store/src/c22_balances.rs: the real ValidateMarketBalances code accepts exactly the covered states, all u128/u64 values) but the cheapest variant needs "
-           "more than 10 minutes of SAT time and the single-token variant does not finish in 1500 s; the instruction-level statement (after every instruction, across markets sharing a vault) needs the "
-           "Anchor instruction layer and SPL-token state. Not claimed.",
     "C24": "PriceValidator::{validate_one, merge_range, finish} and SmallPrices::from_price are exposed through cfg(gmsol_verif) hooks and their MIR->SMT obligations are being written (mir2smt/props/C24.py); "
            "not claimed until that check is quiet on the unchanged tree. Oracle::with_prices_opts (clear on both paths) needs account loaders.",
     "C29": "try_adjust_price_with_max_deviation_factor is exposed through a cfg(gmsol_verif) hook and its MIR->SMT obligations are being written (mir2smt/props/C29.py); not claimed until quiet.",
